@@ -49,13 +49,16 @@ func VerifH_error_body_ctype() {
 		// the request itself was refused (no codec for its body): any error status, but a response
 		vfCheck(w.status >= 400 && len(w.body) > 0, "a refused request was not answered with an error status and body")
 		ct := w.sentHeader["Content-Type"]
-		vfCheck(len(ct) == 1 && (ct[0] == "application/x" || ct[0] == "application/json" || ct[0] == "text/plain; charset=utf-8"), "the error body of a refused request is labelled with a type no codec produces")
+		vfCheck(len(ct) == 1 && (ct[0] == "application/x" || ct[0] == "application/json" || ct[0] == "application/protobuf" || ct[0] == "application/octet-stream" || ct[0] == "text/plain; charset=utf-8"), "the error body of a refused request is labelled with a type no codec produces")
 		vfCover("request-refused")
 		return
 	}
 	vfCheck(w.status == refHTTPStatus[int(code)], "HTTP status is not the documented status for the handler's code")
 	ct := w.sentHeader["Content-Type"]
-	vfCheck(len(ct) == 1 && (ct[0] == "application/x" || ct[0] == "application/json"), "the error body is labelled with a type no registered codec produces")
+	// which registered codec renders the error when nothing was negotiated is the implementation's
+	// choice: any registered type is fine, an unregistered one (the request's own) is not
+	registered := len(ct) == 1 && (ct[0] == "application/x" || ct[0] == "application/json" || ct[0] == "application/protobuf" || ct[0] == "application/octet-stream")
+	vfCheck(registered, "the error body is labelled with a type no registered codec produces")
 	vfCheck(len(w.body) > 0, "the error response has no body")
 	if len(ct) == 1 && ct[0] == "application/x" {
 		vfCheck(len(rec.statuses) == 1 && codes.Code(rec.statuses[0].Code) == code && rec.statuses[0].Message == "m", "google.rpc.Status body does not carry the handler's code and message")
